@@ -324,6 +324,8 @@ impl Server {
 
             log::debug!("Running accept thread");
             while !inside_close_trigger.load(Relaxed) {
+                #[cfg(tiny_http_verif)]
+                tiny_http_vrt::mark_yield("srv.check", &[]);
                 let new_client = match server.accept() {
                     Ok((sock, _)) => {
                         use util::RefinedTcpStream;
@@ -357,6 +359,8 @@ impl Server {
                     Err(e) => Err(e),
                 };
 
+                #[cfg(tiny_http_verif)]
+                tiny_http_vrt::mark!("srv.accept", ok = new_client.is_ok());
                 match new_client {
                     Ok(client) => {
                         let messages = inside_messages.clone();
@@ -386,6 +390,8 @@ impl Server {
                     }
                 }
             }
+            #[cfg(tiny_http_verif)]
+            tiny_http_vrt::mark!("srv.exit");
             log::debug!("Terminating accept thread");
         });
 
@@ -462,6 +468,8 @@ impl Iterator for IncomingRequests<'_> {
 impl Drop for Server {
     fn drop(&mut self) {
         self.close.store(true, Relaxed);
+        #[cfg(tiny_http_verif)]
+        tiny_http_vrt::mark_yield("srv.flag", &[]);
         // Connect briefly to ourselves to unblock the accept thread
         let maybe_stream = match &self.listening_addr {
             ListenAddr::IP(addr) => TcpStream::connect(addr).map(Connection::from),
